@@ -19,7 +19,8 @@ Quick == Tier = "quick"
 MaxP  == IF Quick THEN 3 ELSE 6
 MaxB  == 3
 MaxK  == 4
-Shapes == <<"cross", "aniso", "diag", "line", "dup", "outlier">>
+Shapes == <<"cross", "aniso", "diag", "line", "dup", "outlier", "twopt", "onept">>
+Clumps == {"twopt", "onept"}     \* fewer distinct points than components ; shifted so that the bounding box excludes the origin
 Spacings == <<10, 2>>                  \* separated / overlapping blob centres
 Inits == <<"kmeans", "random">>
 Seeds == IF Quick THEN <<1>> ELSE <<1, 7, 42>>
@@ -47,6 +48,9 @@ Shape(name, p) ==
                          \o (IF p >= 2 THEN <<Add(Unit(p, 1), Mul(-1, Unit(p, p))), Add(Mul(-1, Unit(p, 1)), Unit(p, p))>> ELSE <<>>)
     [] name = "line"  -> [t \in 1..5 |-> Mul(t - 3, Ones(p))]
     [] name = "dup"   -> <<Zero(p), Zero(p), Zero(p), Unit(p, 1)>>
+    \* heavy duplicates: 10 copies each of two points / 8 copies of one point
+    [] name = "twopt" -> [q \in 1..20 |-> IF q <= 10 THEN Zero(p) ELSE Ones(p)]
+    [] name = "onept" -> [q \in 1..8 |-> Zero(p)]
     \* a blob and one training point hundreds of standard deviations away from it
     [] name = "outlier" -> <<Zero(p)>> \o Concat([i \in 1..p |-> <<Unit(p, i), Mul(-1, Unit(p, i))>>]) \o <<Mul(200, Unit(p, p))>>
 
@@ -54,8 +58,10 @@ Shape(name, p) ==
 RECURSIVE Centre(_, _, _)
 Centre(b, p, sp) == IF b = 0 THEN Zero(p) ELSE Add(Centre(b - 1, p, sp), Mul(sp, Unit(p, ((b - 1) % p) + 1)))
 
+Offset(name, p) == IF name \in Clumps THEN Mul(5, Ones(p)) ELSE Zero(p)
 Data(name, p, nb, sp) ==
-  Concat([b \in 1..nb |-> LET sh == Shape(name, p) IN [q \in 1..Len(sh) |-> Add(Centre(b - 1, p, sp), sh[q])]])
+  Concat([b \in 1..nb |-> LET sh == Shape(name, p) IN
+            [q \in 1..Len(sh) |-> Add(Offset(name, p), Add(Centre(b - 1, p, sp), sh[q]))]])
 
 ColMin(d, j) == CHOOSE x \in {d[q][j] : q \in DOMAIN d} : \A y \in {d[q][j] : q \in DOMAIN d} : x <= y
 ColMax(d, j) == CHOOSE x \in {d[q][j] : q \in DOMAIN d} : \A y \in {d[q][j] : q \in DOMAIN d} : x >= y
@@ -81,7 +87,9 @@ Keep(ix) == (ix % Thin) = 0
 Selected(p, si, nb, li, k, ii, zi, ri, ci, fi) ==
   /\ nb = 1 => li = 1
   /\ fi = 2 => (p + si + nb + k + ri) % 3 = 0
-  /\ Keep(p + 2 * si + 3 * nb + li + 5 * k + ii + zi + 7 * ri + 3 * ci + fi)
+  /\ IF Shapes[si] \in Clumps
+       THEN nb = 1 /\ ((p + k + ii + zi + 2 * ri + ci + fi) % 3) = 0        \* one clump only, lighter thinning
+       ELSE Keep(p + 2 * si + 3 * nb + li + 5 * k + ii + zi + 7 * ri + 3 * ci + fi)
 
 SweepData == << <<-4>>, <<4>>, <<-4>>, <<4>> >>                  \* ds = 4 : -1, 1, -1, 1  (variance exactly 1)
 SweepData2 == << <<-4, 0>>, <<4, 0>>, <<0, -4>>, <<0, 4>>, <<-4, 0>>, <<4, 0>>, <<0, -4>>, <<0, 4>> >>   \* covariance I / 2
